@@ -1,7 +1,13 @@
 use crate::conn_id::ConnectionId;
 use aldrin_core::{ObjectCookie, ServiceCookie};
+#[cfg(not(kani))]
 use std::collections::hash_map::{Entry, HashMap};
+#[cfg(kani)]
+use crate::verif_collections::hash_map::{Entry, HashMap};
+#[cfg(not(kani))]
 use std::collections::HashSet;
+#[cfg(kani)]
+use crate::verif_collections::HashSet;
 
 #[derive(Debug)]
 pub(crate) struct Service {
@@ -117,3 +123,7 @@ impl Service {
         res.into_iter()
     }
 }
+
+#[cfg(kani)]
+#[path = "/verif/harness/broker/service.rs"]
+pub(crate) mod verif;
